@@ -100,7 +100,6 @@ func Run(opts *Options) (int, error) {
 		chunkList = NewChunkList(cache, func(item *Item, data []byte) bool {
 			if len(header) < opts.HeaderLines {
 				header = append(header, byteString(data))
-				eventBox.Set(EvtHeader, header)
 				return false
 			}
 			item.text, item.colors = ansiProcessor(data)
@@ -131,7 +130,6 @@ func Run(opts *Options) (int, error) {
 			transformed := nthTransformer(tokens, itemIndex)
 			if len(header) < opts.HeaderLines {
 				header = append(header, transformed)
-				eventBox.Set(EvtHeader, header)
 				return false
 			}
 			item.text, item.colors = ansiProcessor(stringBytes(transformed))
@@ -169,7 +167,18 @@ func Run(opts *Options) (int, error) {
 	var reader *Reader
 	if !streamingFilter {
 		reader = NewReader(func(data []byte) bool {
-			return chunkList.Push(data)
+			pushed := chunkList.Push(data)
+			if !pushed && opts.HeaderLines > 0 {
+				// The line was diverted to the header. Notify the coordinator only
+				// after Push has released the lock of the chunk list; doing it from
+				// the item builder can deadlock with the coordinator taking a
+				// snapshot while it holds the lock of the event box.
+				chunkList.mutex.Lock()
+				current := header
+				chunkList.mutex.Unlock()
+				eventBox.Set(EvtHeader, current)
+			}
+			return pushed
 		}, eventBox, executor, opts.ReadZero, opts.Filter == nil)
 
 		readyChan := make(chan bool)
